@@ -67,12 +67,28 @@ pub struct FaultReader<'a> {
     data: &'a [u8],
     pos: usize,
     fail_at: usize,
+    kind: io::ErrorKind,
     pub errors_returned: Rc<Cell<usize>>,
 }
 
+/// Error kinds a failing reader may report (Interrupted is excluded: it means "retry").
+pub const FAULT_KINDS: &[io::ErrorKind] = &[
+    io::ErrorKind::ConnectionReset,
+    io::ErrorKind::UnexpectedEof,
+    io::ErrorKind::Other,
+    io::ErrorKind::InvalidData,
+    io::ErrorKind::WouldBlock,
+    io::ErrorKind::TimedOut,
+    io::ErrorKind::BrokenPipe,
+    io::ErrorKind::NotFound,
+];
+
 impl<'a> FaultReader<'a> {
     pub fn new(data: &'a [u8], fail_at: usize) -> Self {
-        FaultReader { data, pos: 0, fail_at, errors_returned: Rc::new(Cell::new(0)) }
+        FaultReader::with_kind(data, fail_at, io::ErrorKind::ConnectionReset)
+    }
+    pub fn with_kind(data: &'a [u8], fail_at: usize, kind: io::ErrorKind) -> Self {
+        FaultReader { data, pos: 0, fail_at, kind, errors_returned: Rc::new(Cell::new(0)) }
     }
 }
 
@@ -83,7 +99,7 @@ impl<'a> Read for FaultReader<'a> {
         }
         if self.pos >= self.fail_at {
             self.errors_returned.set(self.errors_returned.get() + 1);
-            return Err(io::Error::new(io::ErrorKind::ConnectionReset, MARKER));
+            return Err(io::Error::new(self.kind, MARKER));
         }
         // one byte per read so that the error position is exact
         buf[0] = self.data[self.pos];
